@@ -16,6 +16,7 @@ from .. import encode, genpel, pelrun, seams
 ID = 'C02'
 LEVEL = 'model_checking'
 TRACE = 'trace/Trace_Pel'
+PROCESS_EVERY = 4         # every fourth case decodes through the real tool as a real process (seams.PROC_VARIANTS)
 RULE = ('case = one well-formed PEL (PH, UH + EH, MT, LP sections) with swept field values, decoded by the real '
         'parsePEL; every displayed field of every section is compared with PelDisplay!Show*; non-trivial = every '
         'record (each carries >= 30 compared fields); distinct = by encoded bytes')
